@@ -31,8 +31,8 @@ Definition simulates (code : list ipos) (pc0 len : nat) (B : state -> outcome) :
     match B st with
     | Done st' => exists n r', stepn n code (boundary pc0 r t vs ps st)
                    = MRunning (boundary (pc0 + len) r' t vs ps st')
-    | Failed x q st' => exists n s', stepn n code (boundary pc0 r t vs ps st) = MError x q s' /\ mscreen s' = screen st'
-    | StepZero q st' => exists n s', stepn n code (boundary pc0 r t vs ps st) = MStepZero q s' /\ mscreen s' = screen st'
+    | Failed x q st' => exists n s', stepn n code (boundary pc0 r t vs ps st) = MError x q s' /\ of_mio (mscreen s') = screen st'
+    | StepZero q st' => exists n s', stepn n code (boundary pc0 r t vs ps st) = MStepZero q s' /\ of_mio (mscreen s') = screen st'
     | OutOfFuel => True
     end.
 
@@ -64,13 +64,13 @@ Proof.
   { rewrite stepn_one. unfold Machine.step, boundary. cbn [pc]. rewrite Hl1. reflexivity. }
   destruct (eval c (vars st)) as [v st1|x q] eqn:Ev.
   2:{ (* the condition fails *)
-      destruct (gen_expr_error num_text is_negative c code (S pc0) r t vs ps (vars st) (screen st) false x q Hc Ev)
-        as (k & s' & _ & Hs & Hd & _).
+      destruct (gen_expr_error num_text is_negative c code (S pc0) r t vs ps (vars st) (to_mio (screen st)) false x q Hc Ev)
+        as (k & s' & _ & Hs & Hd & _). apply (f_equal of_mio) in Hd; rewrite ?of_to_mio in Hd.
       exists (1 + k), s'. split; [|exact Hd]. rewrite stepn_add, S0. exact Hs. }
-  destruct (gen_expr_value num_text is_negative c code (S pc0) r t vs ps (vars st) (screen st) false v st1 Hc Ev) as [b1 Sc].
+  destruct (gen_expr_value num_text is_negative c code (S pc0) r t vs ps (vars st) (to_mio (screen st)) false v st1 Hc Ev) as [b1 Sc].
   fold lc in Sc.
   assert (S1 : stepn (1 + lc) code (boundary pc0 r t vs ps st)
-               = MRunning (mk_m (S pc0 + lc) (mk_regs v b1 (Machine.rc r) (Machine.rd r) :: t) vs ps st1 (screen st) false)).
+               = MRunning (mk_m (S pc0 + lc) (mk_regs v b1 (Machine.rc r) (Machine.rd r) :: t) vs ps st1 (to_mio (screen st)) false)).
   { rewrite stepn_add, S0. exact Sc. }
   destruct (truthy v) as [[|]|x] eqn:Tv.
   - (* true: body, jump back, loop again *)
@@ -105,7 +105,7 @@ Proof.
     do 2 f_equal. fold lc. lia.
   - (* the condition's value cannot be tested *)
     eexists (1 + lc + 1), _. rewrite stepn_add, S1, stepn_one. unfold Machine.step. cbn [pc]. rewrite Hjf.
-    unfold cur. cbn [rstack ra]. rewrite Tv. split; reflexivity.
+    unfold cur. cbn [rstack ra]. rewrite Tv. split; [reflexivity|apply of_to_mio].
 Qed.
 
 End WithNumberText.
